@@ -52,9 +52,9 @@ CLAIMS = {
     'C09': {'level': 'other', 'technique': 'contract-based deductive verification (pyvc) of generate_snapshots (row multiset; three nested loop invariants, modular against the listing contract); bounded stand-in (real files) for bytes, codecs and the reader',
             'text': 'generate_snapshots is proved to yield exactly one row (u,v,q) per listed interaction and per instant q at which it is present, with the listing orientation (directed: out_interactions), for all graphs with canonical timelines, without modifying the graph; the row string is kept as an injective constructor (trusted codec axiom). Bounded: exact multiset of rows written, orientation, and presence after reading back, over the small scope x targets x delimiters x encodings x id types; '
                     'four-column rows. File system and codecs are outside the reach of a contract.', 'note': KERNEL_NOTE + ' Trusted: delimiter.join(map(make_str, [u,v,t])) as an injective row constructor.'},
-    'C10': {'level': 'exploration', 'technique': 'bounded stand-in (real files) with an oracle from the property text',
-            'text': 'Rows = stream events in order; presence and stream after the round trip; ~20k well-formed logs fed directly to the reader and compared with the oracle '
-                    'meaning of the log. Known finding D06 reported.', 'note': BOUNDED_NOTE},
+    'C10': {'level': 'other', 'technique': 'contract-based deductive verification (pyvc) of generate_interactions (modular, against stream_interactions) and stream_interactions x2; bounded stand-in (real files) for the reader and the round trip',
+            'text': 'generate_interactions is proved to yield exactly one row per event of stream_interactions(), in stream order (ghost yield sequence), and stream_interactions to enumerate every logged event once in non-decreasing time. Bounded: rows = stream events in order; presence and stream after the round trip; ~20k well-formed logs fed directly to the reader and compared with the oracle '
+                    'meaning of the log. Known finding D06 reported.', 'note': KERNEL_NOTE + ' Trusted: the row string as an injective constructor of (u, v, op, t).'},
     'C11': {'level': 'exploration', 'technique': 'bounded stand-in (real json.dumps/loads) with an oracle from the property text',
             'text': 'directed flag, nodes incl. isolated ones and attributes, one link per interaction and instant with orientation, rebuilt class/nodes/attributes/presence, '
                     'custom attrs id, directed argument used only when the data does not say.', 'note': BOUNDED_NOTE},
